@@ -388,6 +388,12 @@ def main():
             for o in rep["obligations"]:
                 clauses.add(clause_key(o))
             # a clause is locked only if every obligation of it discharged, or its failures are all known findings
+            # guard clauses: preconditions of callee clauses that no call matches on this tree (they guard calls a
+            # change may introduce, e.g. "a node must never be pointed at the scratch buffer"); never failed here, so locked
+            for res in results:
+                for fr in res["functions"]:
+                    for gc in fr.get("guard_clauses") or []:
+                        clauses.add(fr["pkg"].replace("github.com/ozontech/file.d/", "") + "::" + gc)
             locked = sorted(c for c in clauses if c not in failed)
             baseline[pid] = {"clauses": locked, "functions": sorted(f["name"] for f in rep["functions"] if not f["error"]),
                              "obligations": len(rep["obligations"])}
